@@ -179,6 +179,11 @@ fn update_file_content_inner(file_name: &str, content: &str) {
     });
     BUNDLER.with(|b| {
         let mut b = b.borrow_mut();
+        if !b.files.contains_key(&file_name) {
+            // a file the cache has not seen may be a new file: modules parsed earlier recorded their
+            // import of it as unresolved, so they have to be read and resolved again
+            b.files.clear();
+        }
         match res {
             Ok(f) => {
                 b.files.insert(file_name, f);
